@@ -16,7 +16,7 @@ from ..seams import SimFile, StepClock
 PROP = "C08"
 LEVEL = "exploration"
 RUNS = {"quick": 12000, "thorough": 400000}
-TIME_CAP = {"quick": 240, "thorough": 1500}
+TIME_CAP = {"quick": 240, "thorough": 900}
 RULE = ("seeded view stacks (depth 1-4 of offset/wrapper/sector/file-chain/mdf/reversed layers over a SimFile) x seeded "
         "seek/tell/read histories of 1-120 ops, plus an enumerated block of all op sequences up to length 4 (quick: 3) over "
         "an alphabet of 10 ops on 6 tiny fixed stacks; a case is non-trivial when its history contains a read that crosses a "
